@@ -356,7 +356,15 @@ func (conn *Conn) read(ctx *Context, async bool) {
 		if err != nil {
 			err = errors.New("reading error body: " + err.Error())
 		}
-		call.done()
+		if conn.readSched != nil {
+			// With pipelining every completion, failed or not, goes
+			// through the same queue so that calls complete in order.
+			conn.readSched.Schedule(func() {
+				call.done()
+			})
+		} else {
+			call.done()
+		}
 		conn.bufferPool.PutBuffer(ctx.buffer)
 		putContext(ctx)
 	default:
